@@ -62,6 +62,11 @@ fn run_c02(out: &mut Out, tier: &str, rng: &mut Rng) {
     for burst in [1usize, 16, 17, 40] {
         c15::via_session(out, 1, burst);
     }
+    // ... also a command accepted before the network's tasks have first run, and after a large frame the session skips
+    c15::early(out);
+    for between in [257usize, 700, 1024] {
+        c15::via_session_between(out, 3, between);
+    }
     c02::run(out, tier, rng);
     authgen::run_generic_auth(out, tier, rng, "motion frames");
     out.rule.push_str(AUTH_NOTE);
@@ -170,6 +175,7 @@ fn run_c06(out: &mut Out, tier: &str, rng: &mut Rng) {
     authgen::run_c06_auth(out, tier, rng);
     authgen::run_c06_requests(out, tier, rng);
     authgen::run_c06_sources(out, tier, rng);
+    authgen::run_c06_engine_speeds(out, tier, rng);
     for ms in if tier == "thorough" { vec![301u64, 1000, 3000, 6000] } else { vec![301u64, 1200] } {
         c16::concurrent_stress(out, ms);
     }
